@@ -8,6 +8,7 @@ mod gen;
 mod out;
 mod trap;
 mod c05;
+mod c17;
 mod c18;
 
 use gen::Rng;
@@ -66,6 +67,7 @@ fn main() {
     let mut rng = Rng::new(seed);
     match prop.as_str() {
         "C05" => c05::run(&mut out, &mut rng, tier),
+        "C17" => c17::run(&mut out, &mut rng, tier),
         "C18" => c18::run(&mut out, &mut rng, tier),
         "trapselftest" => match trap::selftest() {
             Ok(()) => eprintln!("trap selftest ok ({} traps)", trap::total_traps()),
